@@ -309,15 +309,23 @@ def g_do_mean(rng, cls, dtype):
     t = 1 if cls == "min" else int(rng.integers(1, 4))
     ny, nx = (1, 1) if cls == "min" else (int(rng.integers(1, 12)), int(rng.integers(1, 12)))
     nz = 1 if cls == "min" else int(rng.integers(1, 9))
-    zones = rng.integers(0, nz, (ny, nx)).astype(np.int16)
+    # zone rasters come in whatever integer type the administrative layer was rasterised to; ids reach the top of the type
+    zdt, z_nodata = [(np.int16, -1), (np.int16, -1), (np.int32, -1), (np.int64, -1), (np.uint8, 255), (np.int8, -1), (np.uint16, 65535), (np.int16, -1)][int(rng.integers(0, 8))]
+    if cls != "min" and rng.random() < 0.5:
+        top = int(min(np.iinfo(zdt).max - 1, 40000))
+        nz = int(rng.integers(max(2, top // 2), top + 1))
+        zones = rng.integers(max(0, nz - 12), nz, (ny, nx)).astype(zdt)  # the highest ids
+        zones[rng.random((ny, nx)) < 0.3] = rng.integers(0, 3)
+    else:
+        zones = rng.integers(0, nz, (ny, nx)).astype(zdt)
     if cls != "min":
-        zones[rng.random((ny, nx)) < 0.2] = -1
+        zones[rng.random((ny, nx)) < 0.2] = z_nodata
     if dtype.startswith("int"):
         px = rng.integers(-100, 3000, (t, ny, nx)).astype(dtype)
     else:
         px = rng.normal(100, 30, (t, ny, nx)).astype(dtype)
     px[rng.random((t, ny, nx)) < 0.2] = -9999
-    return [px, zones, nz, -9999, -1, np.float32 if rng.random() < 0.5 else np.float64]
+    return [px, zones, nz, -9999, z_nodata, np.float32 if rng.random() < 0.5 else np.float64]
 
 
 def g_mean_grp(rng, cls, dtype):
